@@ -45,6 +45,7 @@ type Obl struct {
 	Goal    string
 	Pos     token.Pos
 	Detail  string
+	PosStr  string
 	NonGate bool
 	// results
 	Status string // proved, failed, unknown
@@ -96,29 +97,30 @@ type frame struct {
 }
 
 type Enc struct {
-	P        *Program
-	W        *World
-	fn       *ssa.Function
-	C        *Contract
-	items    []string
-	obls     []*Obl
-	vals     map[ssa.Value]Val
-	nfresh   int
-	dry      bool
-	writes   map[*ssa.BasicBlock]map[string]bool // from the dry run: comps written per block ("*" = all)
-	curWrite map[string]bool
-	notes    map[string]bool
-	unmod    map[string]bool
-	externs  map[string]bool
-	inlines  map[string]bool
-	oblCount map[string]int
-	depth    int
-	top      *frame
-	specDone map[string]bool
-	specSigs map[string]*specSig
-	opts     map[string]string
-	errors   []string
-	entryAlloc string
+	P           *Program
+	W           *World
+	fn          *ssa.Function
+	C           *Contract
+	items       []string
+	obls        []*Obl
+	vals        map[ssa.Value]Val
+	nfresh      int
+	dry         bool
+	writes      map[*ssa.BasicBlock]map[string]bool // from the dry run: comps written per block ("*" = all)
+	curWrite    map[string]bool
+	notes       map[string]bool
+	unmod       map[string]bool
+	externs     map[string]bool
+	inlines     map[string]bool
+	oblCount    map[string]int
+	depth       int
+	inlineStack map[*ssa.Function]bool
+	top         *frame
+	specDone    map[string]bool
+	specSigs    map[string]*specSig
+	opts        map[string]string
+	errors      []string
+	entryAlloc  string
 }
 
 func (e *Enc) fresh(prefix, sort string) string {
@@ -148,7 +150,7 @@ func (e *Enc) oblige(st *bstate, kind, anchor, goal string, pos token.Pos) *Obl 
 	base := fmt.Sprintf("%s/%s/%s", fnDisplay(e.fn), kind, anchor)
 	e.oblCount[base]++
 	name := fmt.Sprintf("%s#%d", base, e.oblCount[base])
-	o := &Obl{Name: name, Kind: kind, Fn: fnDisplay(e.fn), At: len(e.items), Reach: st.reach, Goal: goal, Pos: pos}
+	o := &Obl{Name: name, Kind: kind, Fn: fnDisplay(e.fn), At: len(e.items), Reach: st.reach, Goal: goal, Pos: pos, PosStr: e.P.posString(pos)}
 	e.obls = append(e.obls, o)
 	// later obligations may assume this one
 	e.assume(st.reach, goal)
